@@ -40,6 +40,8 @@ def shards(tier):
     out.append(("corpus", 0))
     out.append(("corpus", 1))
     out.append(("longline", 0))
+    for i in range(len(BLOCK_ALPHA)):
+        out.append(("block", i))
     return out
 
 
@@ -261,6 +263,17 @@ def check_document(body, res, viol, execute=True):
         check_render(e, body, (1, 1), viol)
         res.outcome(("syn", want))
         return
+    tok = doc.loc.start_token
+    while tok is not None:
+        if tok.kind.name == "SOF":
+            tok = tok.next
+            continue
+        want = ref.location(body, tok.start)
+        res.evaluations += 1
+        if want is not None and (tok.line, tok.column) != want:
+            viol("token_line_column", body, f"token {tok.kind} at {tok.start}: line/column {(tok.line, tok.column)} want {want}", {})
+            return
+        tok = tok.next
     errors = list(validate(schema, doc))
     kinds = ["validation"] * len(errors)
     if execute and not errors:
@@ -311,6 +324,11 @@ def check_document(body, res, viol, execute=True):
 
 
 EDIT_CHARS = ["\n", "\r", "\r\n", "\u2028", "\x0c", "?", '"', "}"]
+
+
+BLOCK_ALPHA = ["a", " ", "\n", "\r", "\\", '"']
+BLOCK_PRE = ["", "\n", "a ", "\r\n "]
+BLOCK_TAIL = ["", "a", " a", "\na", "\r\na", "?", "\r?", ' "x" b']
 
 
 def run_shard(shard, tier):
@@ -364,6 +382,21 @@ def run_shard(shard, tier):
                             res.transitions += 1
                             res.executions += 1
             res.sample({"document": "\n".join(lines)[:80], "layouts": list(STYLES)})
+    elif kind == "block":
+        # block strings: the lexer's own line bookkeeping (line / line_start) across inner terminators
+        LB = 4 if tier == "quick" else 5
+        first = BLOCK_ALPHA[arg]
+        for n in range(0, LB):
+            for tup in itertools.product(BLOCK_ALPHA, repeat=n):
+                inner = first + "".join(tup)
+                for pre in BLOCK_PRE:
+                    for tail in BLOCK_TAIL:
+                        body = pre + '"""' + inner + '"""' + tail
+                        check_string(body, res, viol)
+                        res.states += 1
+                        res.transitions += 1
+                        res.executions += 1
+        res.sample({"source": '"""a\r\n"""a', "checks": "token line/column after a block string"})
     elif kind == "longline":
         cur["mode"] = "string"
         # minified documents: lines > 120 chars, error at several columns
